@@ -9,11 +9,9 @@
    Main result: a complete call of disable (successful or refused, with all its cascades) never lowers the excess
    of any (object, feature); decr_ref_count lowers it by at most one, at its target. *)
 From Coq Require Import ZArith List Bool Arith Lia.
-From CV Require Import C13.DepsModel C13.DepsProofs C13.ModuleProofs.
+From CV Require Import C13.DepsModel C13.InvModel C13.DepsProofs C13.ModuleProofs.
 Import ListNotations.
 Open Scope Z_scope.
-
-Definition zcnt (x : nat) (l : list nat) : Z := Z.of_nat (cnt x l).
 
 Lemma zcnt_nonneg x l : 0 <= zcnt x l.
 Proof. unfold zcnt. lia. Qed.
@@ -26,9 +24,6 @@ Proof. reflexivity. Qed.
 
 Lemma zcnt_pos x l : In x l -> 1 <= zcnt x l.
 Proof. intros H. apply cnt_In in H. unfold zcnt. lia. Qed.
-
-Fixpoint zsum (l : list nat) (F : nat -> Z) : Z :=
-  match l with [] => 0 | x :: r => F x + zsum r F end.
 
 Lemma zsum_ext l F G : (forall x, In x l -> F x = G x) -> zsum l F = zsum l G.
 Proof.
@@ -75,25 +70,14 @@ Qed.
 (* ------------------------------------------------------------------------------------------ need / excess *)
 Section Need.
   Variable T : tables.
-
-  Definition nf (s : state) (o : nat) : nat := length (o_fs (get_obj s o)).
-  Definition rc (s : state) (o g : nat) : Z := fs_rc (get_fs s o g).
-
-  Definition termS (s : state) (o g f : nat) : Z :=
-    if is_enabled s o f then zcnt g (f_self (feat T (cls_of s o) f)) else 0.
-  Definition termA (s : state) (o g f : nat) : Z := zcnt g (fs_alt (get_fs s o f)).
-  Definition termC (s : state) (p g f : nat) : Z :=
-    if is_enabled s p f then zcnt g (f_children (feat T (cls_of s p) f)) else 0.
-
-  Definition need_self (s : state) (o g : nat) : Z := zsum (seq 0 (nf s o)) (termS s o g).
-  Definition need_alt (s : state) (o g : nat) : Z := zsum (seq 0 (nf s o)) (termA s o g).
-  Definition wch (s : state) (p g : nat) : Z := zsum (seq 0 (nf s p)) (termC s p g).
-  Definition termP (s : state) (o g p : nat) : Z :=
-    if is_enabled s p 0 then zcnt o (o_children (get_obj s p)) * wch s p g else 0.
-  Definition need_par (s : state) (o g : nat) : Z := zsum (seq 0 (length s)) (termP s o g).
-
-  Definition need (s : state) (o g : nat) : Z := need_self s o g + need_alt s o g + need_par s o g.
-  Definition excess (s : state) (o g : nat) : Z := rc s o g - need s o g.
+  Notation termS := (InvModel.termS T).
+  Notation termC := (InvModel.termC T).
+  Notation need_self := (InvModel.need_self T).
+  Notation wch := (InvModel.wch T).
+  Notation termP := (InvModel.termP T).
+  Notation need_par := (InvModel.need_par T).
+  Notation need := (InvModel.need T).
+  Notation excess := (InvModel.excess T).
 
   Lemma termS_nonneg s o g f : 0 <= termS s o g f.
   Proof. unfold termS. destruct (is_enabled s o f); [apply zcnt_nonneg | lia]. Qed.
@@ -899,3 +883,82 @@ Section Consistency.
     Qed.
   End WithHeight.
 End Consistency.
+
+(* ------------------------------------------------------------------------------------------
+   The finite checker (InvModel.consistent_check, extracted and run on every dumped state) is sound. *)
+Section Checker.
+  Variable T : tables.
+
+  Lemma zsum_zero l F : (forall x, In x l -> F x = 0) -> zsum l F = 0.
+  Proof.
+    induction l as [|a l IH]; intros H; cbn [zsum]; [reflexivity|].
+    rewrite (H a (or_introl eq_refl)), IH; [reflexivity|]. intros x Hx. apply H. right; exact Hx.
+  Qed.
+
+  Lemma ids_below_zcnt G l g : ids_below G l = true -> (G <= g)%nat -> zcnt g l = 0.
+  Proof.
+    intros H L. unfold zcnt. assert (N : ~ In g l).
+    { intros Hin. unfold ids_below in H. rewrite forallb_forall in H. specialize (H g Hin). apply Nat.ltb_lt in H. lia. }
+    apply cnt_notIn in N. rewrite N. reflexivity.
+  Qed.
+
+  Lemma consistent_check_sound s G : consistent_check T s G = true -> consistent T s.
+  Proof.
+    unfold consistent_check. intros H. apply andb_true_iff in H. destruct H as [R Cc].
+    unfold range_check in R. rewrite forallb_forall in R.
+    assert (Ra : forall p, (nf s p <= G)%nat).
+    { intros p. destruct (Nat.lt_ge_cases p (length s)) as [L|L]; [|rewrite (nf_overflow _ _ L); lia].
+      specialize (R p ltac:(apply in_seq; lia)). apply andb_true_iff in R. destruct R as [R _]. apply andb_true_iff in R. destruct R as [R _].
+      apply Nat.leb_le in R. exact R. }
+    assert (Rb : forall p c, In c (o_children (get_obj s p)) -> (c < length s)%nat).
+    { intros p c Hc. destruct (Nat.lt_ge_cases p (length s)) as [L|L]; [|rewrite (get_obj_overflow _ _ L) in Hc; contradiction].
+      specialize (R p ltac:(apply in_seq; lia)). apply andb_true_iff in R. destruct R as [R _]. apply andb_true_iff in R. destruct R as [_ R].
+      rewrite forallb_forall in R. specialize (R c Hc). apply Nat.ltb_lt in R. exact R. }
+    assert (Rc : forall p f, (f < nf s p)%nat ->
+              ids_below G (f_self (feat T (cls_of s p) f)) = true /\ ids_below G (f_children (feat T (cls_of s p) f)) = true /\
+              ids_below G (fs_alt (get_fs s p f)) = true).
+    { intros p f Hf. destruct (Nat.lt_ge_cases p (length s)) as [L|L]; [|rewrite (nf_overflow _ _ L) in Hf; lia].
+      specialize (R p ltac:(apply in_seq; lia)). apply andb_true_iff in R. destruct R as [_ R].
+      rewrite forallb_forall in R. specialize (R f ltac:(apply in_seq; lia)).
+      apply andb_true_iff in R. destruct R as [R R3]. apply andb_true_iff in R. destruct R as [R1 R2]. auto. }
+    assert (Out : forall o g, (length s <= o)%nat \/ (G <= g)%nat -> rc s o g = 0 /\ need T s o g = 0).
+    { intros o g Ho. split.
+      - unfold rc, get_fs. destruct Ho as [Ho|Ho]; [rewrite (get_obj_overflow _ _ Ho); cbn; destruct g; reflexivity|].
+        rewrite nth_overflow; [reflexivity|]. fold (nf s o). pose proof (Ra o). lia.
+      - unfold need.
+        assert (E1 : need_self T s o g = 0).
+        { unfold need_self. apply zsum_zero. intros f Hf. apply in_seq in Hf. unfold termS. destruct (is_enabled s o f); [|reflexivity].
+          destruct Ho as [Ho|Ho]; [rewrite (nf_overflow _ _ Ho) in Hf; lia|].
+          destruct (Rc o f ltac:(lia)) as (A & _). eapply ids_below_zcnt; eassumption. }
+        assert (E2 : need_alt s o g = 0).
+        { unfold need_alt. apply zsum_zero. intros f Hf. apply in_seq in Hf. unfold termA.
+          destruct Ho as [Ho|Ho]; [rewrite (nf_overflow _ _ Ho) in Hf; lia|].
+          destruct (Rc o f ltac:(lia)) as (_ & _ & A). eapply ids_below_zcnt; eassumption. }
+        assert (E3 : need_par T s o g = 0).
+        { unfold need_par. apply zsum_zero. intros p Hp. unfold termP. destruct (is_enabled s p 0); [|reflexivity].
+          destruct Ho as [Ho|Ho].
+          - assert (Z : zcnt o (o_children (get_obj s p)) = 0).
+            { unfold zcnt. assert (N : ~ In o (o_children (get_obj s p))) by (intros Hin; pose proof (Rb p o Hin); lia).
+              apply cnt_notIn in N. rewrite N. reflexivity. }
+            rewrite Z. lia.
+          - assert (Z : wch T s p g = 0).
+            { unfold wch. apply zsum_zero. intros f Hf. apply in_seq in Hf. unfold termC. destruct (is_enabled s p f); [|reflexivity].
+              destruct (Rc p f ltac:(lia)) as (_ & A & _). eapply ids_below_zcnt; eassumption. }
+            rewrite Z. lia. }
+        rewrite E1, E2, E3. reflexivity. }
+    rewrite forallb_forall in Cc.
+    assert (In_ : forall o g, (o < length s)%nat -> (g < G)%nat -> 0 <= excess T s o g /\ (is_enabled s o g = false -> rc s o g <= 0)).
+    { intros o g Lo Lg. specialize (Cc o ltac:(apply in_seq; lia)). rewrite forallb_forall in Cc. specialize (Cc g ltac:(apply in_seq; lia)).
+      apply andb_true_iff in Cc. destruct Cc as [A B]. apply Z.leb_le in A. split; [exact A|].
+      intros E. rewrite E in B. cbn [orb] in B. apply Z.leb_le in B. exact B. }
+    split.
+    - intros o g. destruct (Nat.lt_ge_cases o (length s)) as [Lo|Lo]; [destruct (Nat.lt_ge_cases g G) as [Lg|Lg]|].
+      + apply In_; assumption.
+      + destruct (Out o g (or_intror Lg)) as (A & B). unfold excess. lia.
+      + destruct (Out o g (or_introl Lo)) as (A & B). unfold excess. lia.
+    - intros o g E. destruct (Nat.lt_ge_cases o (length s)) as [Lo|Lo]; [destruct (Nat.lt_ge_cases g G) as [Lg|Lg]|].
+      + apply In_; assumption.
+      + destruct (Out o g (or_intror Lg)) as (A & _). lia.
+      + destruct (Out o g (or_introl Lo)) as (A & _). lia.
+  Qed.
+End Checker.
